@@ -2,12 +2,12 @@
 from hypothesis import strategies as st
 
 from vlib import rng, stats
-from vlib.runner import Violation, call
+from vlib.runner import Violation, call, clone_point
 
 PID = "C05"
 RULE = ("Hypothesis-generated (distribution with 1..6 keys over 1..4 topologies, dense or sparse key sets, weights "
         "normalised or raw ints/floats; motif sizes 1..5; N in 1..60; RNG seed) sampled through JointDegreeManual."
-        "sample_jds_from_jdd; plus seeded chi-square tests of the key frequencies on N=20000 draws. Plus one sample of 2**20+3 vertices. Non-trivial = at "
+        "sample_jds_from_jdd; plus seeded chi-square tests of the key frequencies on N=20000 draws. Plus one sample of 2**20+3 vertices. Plus the sampling method of marginal (direct mode) and empirical loaders. Non-trivial = at "
         "least one column of the raw draw was not divisible by its motif size (a perturbation was required); "
         "distinct = distinct canonical JSON")
 ASSUMPTIONS = ["the raw weighted draw is observed passively through random.choices when the implementation uses it "
@@ -74,6 +74,11 @@ def enumerated(tier, seed):
     n = 20000 if tier == "quick" else 100000
     for i, (k, w, s) in enumerate(dists):
         out.append({"stat": True, "keys": k, "weights": w, "sizes": s, "N": n, "seed": seed * 100 + i})
+    # the sampling method of other loaders: marginal (direct mode; tight bounds, so that the marginals carry real
+    # mass at both ends of their ranges) and empirical
+    for i, (bounds, sizes_) in enumerate([([[0, 4], [0, 3]], [2, 3]), ([[1, 3]], [2]), ([[0, 2], [1, 4]], [3, 2])]):
+        out.append({"via": "marginal", "bounds": bounds, "mseed": seed * 10 + i, "sizes": sizes_, "N": 4000, "seed": seed * 100 + 80 + i})
+    out.append({"via": "empirical", "jds": [[1, 0], [1, 0], [2, 1], [0, 3], [0, 3], [0, 3]], "sizes": [2, 3], "N": 4000, "seed": seed * 100 + 85})
     # more than a million vertices (every block size / chunked pass up to 2**20 is crossed); the totals N of both
     # columns leave remainders modulo 2 and 3
     out.append({"keys": [[1, 1]], "weights": [1.0], "sizes": [2, 3], "N": 2 ** 20 + 3, "seed": seed * 100 + 50, "many": True})
@@ -89,7 +94,7 @@ def loader(case):
         import numpy as np
         conv = getattr(np, dt)
     jdd = {tuple(conv(x) for x in k): w for k, w in zip(case["keys"], case["weights"])}
-    return call("construct", JointDegreeManual, {JN.JDD: jdd, JN.MOTIF_SIZES: list(case["sizes"])}), jdd
+    return clone_point(call("construct", JointDegreeManual, {JN.JDD: jdd, JN.MOTIF_SIZES: list(case["sizes"])}), case), jdd
 
 
 def exists_decomposition(out, keys, sizes):
@@ -113,8 +118,47 @@ def exists_decomposition(out, keys, sizes):
     return rec(0, [0] * T)
 
 
+def other_loader_check(case):
+    """keys drawn through the loader's own sample_jds_from_jdd are keys of the distribution it exposes (up to the
+    handshake perturbation) and follow its weights"""
+    from gcmpy import JointDegreeEmpirical, JointDegreeMarginal, JointDegreeNames as JN
+    from checks.c06 import positive
+    sizes = list(case["sizes"])
+    if case["via"] == "marginal":
+        fps = [(lambda d, s=case["mseed"] + 17 * i: positive(s, int(d))) for i in range(len(sizes))]
+        ld = call("construct", JointDegreeMarginal, {JN.ARR_FP: fps, JN.LOW_HIGH_DEGREE_BOUND: [tuple(b) for b in case["bounds"]],
+                                                     JN.MOTIF_SIZES: sizes})
+    else:
+        ld = call("construct", JointDegreeEmpirical, {JN.JDS: [tuple(r) for r in case["jds"]], JN.MOTIF_SIZES: sizes})
+    ld = clone_point(ld, case)
+    jdd = {tuple(int(x) for x in k): float(v) for k, v in ld.jdd.items() if v > 0}
+    N = case["N"]
+    with rng.seeded(case["seed"]):
+        out = call("sample", ld.sample_jds_from_jdd, N)
+    if not isinstance(out, list) or len(out) != N:
+        raise Violation("length", f"sampled {len(out) if hasattr(out, '__len__') else out!r} joint degrees, asked for {N}")
+    out = [tuple(int(x) for x in e) for e in out]
+    cols = [sum(c) for c in zip(*out)]
+    if any(c % s for c, s in zip(cols, sizes)):
+        raise Violation("handshake", f"column sums {cols} not divisible by motif sizes {sizes}")
+    foreign = [e for e in out if e not in jdd]
+    if len(foreign) > sum(s - 1 for s in sizes):
+        raise Violation("too-many-perturbed", f"{len(foreign)} of {N} sampled entries are not keys of the {case['via']} loader's "
+                                              f"distribution, e.g. {foreign[:3]} (keys {sorted(jdd)[:8]}...)")
+    keys = sorted(jdd)
+    W = sum(jdd.values())
+    obs = [sum(1 for e in out if e == k) for k in keys]
+    tot = sum(obs)
+    s_, df, p = stats.chi2_test(obs, [tot * jdd[k] / W for k in keys])
+    if p < stats.ALPHA:
+        raise Violation("weights", f"{case['via']} loader: keys not drawn in proportion to their weights: chi2={s_:.1f} df={df} p={p:.3g}")
+    return {"nontrivial": True, "classes": ["statistical", "via_" + case["via"] + "_loader"], "notes": {"p_weights_" + case["via"]: p}}
+
+
 def check(case):
     from gcmpy import JointDegreeEmpirical, JointDegreeNames as JN
+    if case.get("via"):
+        return other_loader_check(case)
     ld, jdd = loader(case)
     sizes = case["sizes"]
     if case.get("stat"):
